@@ -121,7 +121,9 @@ def klit(k):
 def run(ctx):
     rd = ctx.fresh_run_dir()
     ctx.rule = ("for each of the 15 shear keys: random positive strain fields (ntv 1-3) and random symmetric "
-                "tensors plus the 21 basis tensors; the implementation's own eig frame (lam,T) is exported exactly; "
+                "tensors plus the 21 basis tensors, moduli handed over as numpy scalars, 0-d arrays or (nt,nv) float64 "
+                "grids (inputs must stay untouched, a second call must agree); the implementation's own eig frame "
+                "(lam,T) is exported exactly; "
                 "a case is non-trivial when the tensor has a non-zero target component or is a basis tensor the "
                 "key's energy sum touches; distinct by (key, tensor, strain)")
     ctx.trusted += [
@@ -143,7 +145,7 @@ def run(ctx):
     importlib.reload(S)
     from cij.util import c_
     rng = ctx.rng
-    nrand = 3 if ctx.tier == "quick" else 12
+    nrand = 3 if ctx.tier == "quick" else 120
     cases = []
     meta = []
     for key in SHEAR:
@@ -166,9 +168,33 @@ def run(ctx):
                 krot = [tuple(k.voigt) for k in obj.get_modulus_keys_rotated()]
                 c4 = full_tensor(cv)
                 crot = numpy.einsum("ai,bi,cj,dj,abcd->ij", T, T, T, T, c4)
-                obj.modulus = {c_(*k): numpy.float64(v) for k, v in cv.items()}
-                obj.modulus_rotated = {c_(i + 1, i + 1, j + 1, j + 1): crot[i, j] for i in range(3) for j in range(3)}
+                # the moduli are handed over in the forms callers use: numpy scalars, 0-d arrays, and (nt, nv) float64
+                # grids (what the task list passes); the solver must neither depend on the form nor modify its inputs
+                form = rng.choice(["scalar", "array0", "grid", "grid"])
+                shape = {"scalar": None, "array0": (), "grid": (2, ntv)}[form]
+                wrap = (lambda v: numpy.float64(v)) if shape is None else (lambda v: numpy.full(shape, float(v)))
+                obj.modulus = {c_(*k): wrap(v) for k, v in cv.items()}
+                obj.modulus_rotated = {c_(i + 1, i + 1, j + 1, j + 1): wrap(crot[i, j]) for i in range(3) for j in range(3)}
+                before = ({k: numpy.array(v, copy=True) for k, v in obj.modulus.items()},
+                          {k: numpy.array(v, copy=True) for k, v in obj.modulus_rotated.items()})
                 val = obj.get_target_elastic_modulus()
+                val2 = obj.get_target_elastic_modulus()
+                ctx.count("moduli passed as " + form)
+                mutated = [str(k) for d0, d1 in zip(before, (obj.modulus, obj.modulus_rotated)) for k in d0
+                           if not numpy.array_equal(d0[k], d1[k])]
+                if mutated or not numpy.array_equal(numpy.asarray(val), numpy.asarray(val2)):
+                    ctx.failure("solver-aliasing-c%d%d" % key,
+                                "get_target_elastic_modulus modifies the moduli it is given (%s) / a second call returns "
+                                "%r after %r" % (", ".join(mutated[:4]) or "none", numpy.ravel(val2)[:2].tolist(),
+                                                 numpy.ravel(val)[:2].tolist()),
+                                input=dict(key=key, tensor=cv, strain=e, moduli_form=form + " float64 ndarray" * (form != "scalar")),
+                                expected="inputs untouched, same value on every call", observed=mutated[:6])
+                    break
+                if numpy.ndim(val) > 0:
+                    flat = numpy.ravel(val)
+                    if not numpy.all(flat == flat[0]):
+                        raise ValueError("grid of identical tensors gives a non-constant result %r" % (flat[:4].tolist(),))
+                    val = flat[0]
                 val = float(numpy.real(val)) if numpy.iscomplexobj(val) and abs(numpy.imag(val)) == 0 else val
                 if numpy.iscomplexobj(lam) or numpy.iscomplexobj(T) or numpy.iscomplexobj(val):
                     raise TypeError("complex eigen-decomposition")
